@@ -187,6 +187,11 @@ func main() {
 			*tier = "quick"
 		}
 		os.Exit(cmdCheck(*prop, *tier, os.Args[1] == "baseline", *verbose))
+	case "selftest":
+		fs := flag.NewFlagSet("selftest", flag.ExitOnError)
+		prop := fs.String("prop", "", "property id")
+		fs.Parse(os.Args[2:])
+		os.Exit(cmdSelftest(*prop, false))
 	case "dump":
 		cmdDump(os.Args[2:])
 	case "replay":
@@ -234,7 +239,7 @@ func cmdCheck(id, tier string, writeBaseline, verbose bool) int {
 	var eng *Engine
 	if len(spec.Functions) > 0 || len(spec.Lemmas) > 0 {
 		var pk map[string]*ssa.Package
-		eng, pk, err = loadEngine(spec.Packages, nil)
+		eng, pk, err = loadEngine(spec.Packages, gOverlay)
 		if err != nil {
 			fmt.Println("ERROR loading packages:", err)
 			return 2
@@ -286,6 +291,10 @@ func cmdCheck(id, tier string, writeBaseline, verbose bool) int {
 			dischargeAll(res.Query, filepath.Join(outDir, "lemma_"+sanitizeFile(lem.Name)), timeout, confirm, 16)
 			cr.obligations = append(cr.obligations, res.Query.obls...)
 		}
+	}
+	if gSelftest {
+		gLastResult = cr
+		return 0
 	}
 	for _, b := range spec.Bounded {
 		cr.bounded = append(cr.bounded, runBounded(id, b, tier, seed, outDir))
